@@ -110,8 +110,16 @@ func build(window string, data int) *world {
 	t4 := vkit.Tx("t4", []*protos.TxInput{vkit.In([]byte("t3"), 1, "A", restA3)}, []*protos.TxOutput{vkit.Out("B", u, 0), vkit.Out("A", new(big.Int).Sub(restA3, u), 0)})
 	t4.Autogen = true
 	w.add(c1, 4, []*pb.Transaction{vkit.Coinbase("cb4", "M", w.award.Bytes()), t4})
+	if deepWorld {
+		// two more main-branch blocks (award only, hence applicable by Walk's redo leg): depth 4
+		b3 := w.add(2, 5, []*pb.Transaction{vkit.Coinbase("cb5", "M", w.award.Bytes())})
+		w.add(b3, 6, []*pb.Transaction{vkit.Coinbase("cb6", "M", w.award.Bytes())})
+	}
 	return w
 }
+
+// deepWorld: set by the harnesses that need a chain of depth 4 (finality windows of 2)
+var deepWorld bool
 
 // fresh: a new node that plays genesis..target in order.
 func (w *world) fresh(name string, target int) *state.State {
@@ -227,6 +235,20 @@ func walksFrom(K int, window string, data int, anyStart bool) {
 			if w.parent[target] != at {
 				continue
 			}
+			if anyStart && vrt.Choice("seen-before", 2) == 1 {
+				// the node has seen the block's transactions before: they sit in its pool when the block arrives
+				for _, tx := range w.blocks[target].Transactions {
+					if !tx.Coinbase && !tx.Autogen { // generated transactions never travel through the pool
+						c := *tx // as received from a client: not yet stamped with a block id
+						c.Blockid = nil
+						derr := s.DoTx(&c)
+						if derr != nil && !vrt.Symbolic() {
+							println("pool refuses", string(tx.Txid), derr.Error())
+						}
+						vrt.Assert(derr == nil, "pool-admits-the-blocks-transactions")
+					}
+				}
+			}
 			err := s.Play(w.blocks[target].Blockid)
 			vrt.Assert(err == nil, "play-of-child-block-succeeds")
 			at = target
@@ -288,6 +310,9 @@ func VerifC01Quick()    { walks(2, "0", 1) }
 func VerifC01Thorough() { walks(2, "0", 2) }
 func VerifC01Deep()     { walks(3, "0", 0) }
 func VerifC01AnyStart() { walksFrom(2, "0", 0, true) }
+
+// VerifC17AnyStart: window 2 on the deep world, the node starts at any block, then 2 operations
+func VerifC17AnyStart() { deepWorld = true; walksFrom(2, "2", 0, true) }
 func VerifC17Walks()    { walks(3, "1", 0) }
 func VerifC17Walks2()   { walks(3, "2", 0) }
 
